@@ -336,9 +336,12 @@ class FileIndex(object):
         # No data available. Skip time indexing (argmax will fail on an empty vector).
         if len(self._data) == 0:
             return FileIndex(data=np.copy(self._data), t0=self.t0)
-        # No time bounds specified. Return the complete dataset.
+        # No time bounds specified. Return the complete dataset (less the entries without P1 time, if requested).
         elif start is None and stop is None:
-            return FileIndex(data=np.copy(self._data), t0=self.t0)
+            if hint == 'remove_nans':
+                return FileIndex(data=self._data[~np.isnan(self._data['time'])], t0=self.t0)
+            else:
+                return FileIndex(data=np.copy(self._data), t0=self.t0)
         # If there's no P1 timestamps in the index file whatsoever, t0 will be None. In that case, we cannot apply time
         # bounds to the data, since they are based on P1 time. This should be extremely rare.
         elif self.t0 is None:
